@@ -28,7 +28,10 @@ RULE = ("exhaustive: every (upper, lower) index tuple incl. repeats over a pool 
         "of 10 (quick) / 12 (thorough) indices (occ/virt/general x spin ''/a/b, "
         "numbered names i3, j12, b2) for all rank pairs up to (2,2), classes "
         "AntiSymmetricTensor / SymmetricTensor / Amplitude, bra_ket_sym 0/1/-1 "
-        "(+ invalid 2), thorough also ranks (3,3),(3,2),(2,3) over a 6-index "
+        "(+ invalid 2); all tuples WITH repeated indices over the 3-letter "
+        "alphabets {i,j,i_a}, {i,a,p} for ranks 0..3 per group and over "
+        "{i,j} for ranks 0..4 (every multiset inside and across the groups, "
+        "both bra/ket orders, 3 classes x bks 0/+1/-1); thorough also ranks (3,3),(3,2),(2,3) over a 6-index "
         "sub-pool; sampled: ranks (3,3),(3,2),(2,3),(3,1),(4,4) with every "
         "permutation of upper and lower and the bra-ket swap; same-named "
         "dummies; KroneckerDelta on every ordered index pair of an 20-index "
@@ -309,6 +312,27 @@ def stream_exhaustive(ctx, pool):
                             yield kind, b, u, l
 
 
+def stream_small_alphabet(ctx, pool):
+    """all (upper, lower) tuples WITH repetition over small alphabets, ranks
+    0..3 per group (0..4 over two letters): every multiset of indices inside
+    and across the groups, in both bra/ket orders, for the three classes and
+    bks 0/+1/-1 (SymmetricTensor keeps repeated indices, so e.g. upper
+    (i,i,j) / lower (i,j,j) - same set, different multiplicities - occurs)"""
+    names = {str(x): n for n, x in enumerate(pool.idx)}
+    alphabets = [([names["i"], names["j"], names["i_a"]], 3),
+                 ([names["i"], names["a"], names["p"]], 3),
+                 ([names["i"], names["j"]], 4),
+                 ([names["j12"], names["p_b"]], 4 if ctx.tier != "quick" else 3)]
+    for alpha, rmax in alphabets:
+        for kind in KINDS:
+            for nu in range(rmax + 1):
+                for nl in range(rmax + 1):
+                    for u in itertools.product(alpha, repeat=nu):
+                        for l in itertools.product(alpha, repeat=nl):
+                            for b in (0, 1, -1):
+                                yield kind, b, u, l
+
+
 def stream_sampled(ctx, pool):
     rng = ctx.rng
     n = len(pool)
@@ -401,6 +425,7 @@ def run_constructors(ctx, pool):
     seen = set()
     nsmp = 0
     for stream, label in ((stream_exhaustive, "exh"),
+                          (stream_small_alphabet, "rep"),
                           (stream_sampled, "smp")):
         for kind, b, u, l in stream(ctx, pool):
             key = (kind, b, tuple(u), tuple(l))
